@@ -1664,6 +1664,7 @@ class PyCdlib:
         if self.enhanced_vd is not None:
             loc = self.pvd.root_directory_record().extent_location()
             self.enhanced_vd.root_directory_record().set_data_location(loc, loc)
+            self.enhanced_vd.root_directory_record().set_data_length(self.pvd.root_directory_record().get_data_length())
 
         if self.udf_anchors:
             # The last anchor must sit in the last sector of the volume, even
